@@ -5,7 +5,8 @@
 //     linear nearest-neighbour structure; IterationTerminationCondition(iters).
 //   RRTN <maxDistance> <goalBias> <threshold> W .. S .. G .. C <ncalls> { <iters> <tapeSeed> P <np> {x y}* }*   several solve() calls on one planner
 //   EST <maxDistance> <goalBias> <threshold> <iters> W .. S .. G <gx> <gy> T <nt> {u}* P <np> {x y | - -}*
-//     geometric::EST: uniform01 draws from the tape T, sampleNear results from P (- - = sampleNear fails), linear NN;
+//     geometric::EST: uniform01 draws from the tape T (or, with T -1 <localSeed>, from the planner's own generator reseeded with that
+//     local seed: no hook involved), sampleNear results from P (- - = sampleNear fails), linear NN;
 //     output "est <n>; x y p; ... | report | w0 w1 ..." (the PDF weight of every motion)
 //   output: one line "rrt <n>; x y p; ... | <reported 0/1> <approx> <diff> | x y; ..." with doubles as bit patterns
 #define protected public
@@ -149,7 +150,8 @@ int main()
             in >> tag >> en; for (int i = 0; i < en; ++i) { Wall k; in >> k.w >> k.lo >> k.hi; ewalls.push_back(k); }
             in >> tag >> en; for (int i = 0; i < en; ++i) { double x, y; in >> x >> y; est_starts.emplace_back(x, y); }
             in >> tag >> egx >> egy;
-            in >> tag >> en; for (int i = 0; i < en; ++i) { double u; in >> u; etape.push_back(u); }
+            unsigned long elocal = 0;      // T -1 <localSeed>: no tape, the planner's own generator reseeded with that local seed
+            in >> tag >> en; const bool ereal = en < 0; if (ereal) in >> elocal; for (int i = 0; i < en; ++i) { double u; in >> u; etape.push_back(u); }
             in >> tag >> en; for (int i = 0; i < en; ++i) { std::string a, b; in >> a >> b; if (a == "-") eq->push_back({false, {0, 0}}); else eq->push_back({true, {std::strtod(a.c_str(), nullptr), std::strtod(b.c_str(), nullptr)}}); }
             auto space = std::make_shared<ob::RealVectorStateSpace>(2); space->setBounds(-100, 100);
             auto si = std::make_shared<ob::SpaceInformation>(space);
@@ -164,7 +166,7 @@ int main()
             ep->nn_ = std::make_shared<ompl::NearestNeighborsLinear<og::EST::Motion *>>();
             ep->setRange(maxd); ep->setGoalBias(bias); ep->setProblemDefinition(pdef); ep->setup();
             unsigned cnt = 0; const unsigned lim = iters;
-            ompl::RNG::verifSetTape(etape.data(), etape.size());
+            if (ereal) ep->rng_.setLocalSeed(elocal); else ompl::RNG::verifSetTape(etape.data(), etape.size());
             ep->solve(ob::PlannerTerminationCondition([&cnt, lim] { return cnt++ >= lim; }));
             std::size_t used = ompl::RNG::verifTapeUsed();
             ompl::RNG::verifSetTape(nullptr, 0);
